@@ -462,13 +462,14 @@ fn soft_keyword_lookahead(cx: &mut Ctx, sk: &Src, nx: &syn::ImplItemFn, rule: &s
     cx.floor(rule, 5);
     let mut loops = 0;
     sm::for_each_expr_in_block(&nx.block, |e| {
-        let syn::Expr::While(w) = e else { return };
-        if !sm::tsc(&w.cond).contains("self.underlying.peek()") {
+        let Some((scrut, _pat, body)) = sm::loop_form(e) else { return };
+        if !scrut.contains("self.underlying.peek()") {
             return;
         }
+        let w = e;
         // the loop body's match on the peeked token
         let mut mm: Option<&syn::ExprMatch> = None;
-        for st in &w.body.stmts {
+        for st in &body {
             if let syn::Stmt::Expr(syn::Expr::Match(m), _) = st {
                 mm = Some(m);
             }
